@@ -599,12 +599,17 @@ func depositEqualsRecord(r *core.Run, rule string, hs []*core.Handler) {
 	p := r.Prog
 	n := 0
 	for _, key := range []string{"storage.MsgBuyStorage", "storage.MsgPostFile"} {
-		h := core.HandlerByKey(hs, key)
-		if h == nil {
+		if core.HandlerByKey(hs, key) == nil {
 			r.Undecided(rule, key+":anchor-missing", "", "handler missing")
-			continue
 		}
-		for _, fn := range p.Summary(h.Fn).Funcs {
+	}
+	// every function of the repository that constructs a gauge: the handlers, their helpers, and upgrade code
+	{
+		for _, fn := range p.Funcs {
+			if p.IsGenerated(fn) || core.IsTestSupportPkg(core.FnPkgPath(fn)) || fn.Blocks == nil {
+				continue
+			}
+			key := core.FnName(fn)
 			allInstrs(fn, func(in ssa.Instruction) {
 				ctor, ok := in.(*ssa.Call)
 				if !ok {
@@ -674,6 +679,10 @@ func depositEqualsRecord(r *core.Run, rule string, hs []*core.Handler) {
 						}
 					}
 				})
+				if len(amounts) == 0 && !isGaugeCtor(p, fn) {
+					n++
+					r.Violation(rule, key+":gauge-funded", p.InstrPos(ctor), "a gauge is constructed here but no transfer in this function (or a helper given the gauge) goes to the account derived from it: the record promises coins its account never receives")
+				}
 				for i, amt := range amounts {
 					n++
 					r.Analysed(core.FnName(fn))
